@@ -210,6 +210,24 @@ Qed.
 Theorem reporter_exact_sd c sd es ms : reports (async_history_sd c sd es ms) = spec_reports es ms.
 Proof. rewrite async_history_sd_eq. apply reporter_exact. Qed.
 
+(* ---------- TopicConfig: SetPartitions snapshots the values ---------- *)
+Lemma tc_run_app a b : tc_run (a ++ b) = fold_left tc_apply b (tc_run a).
+Proof. unfold tc_run. apply fold_left_app. Qed.
+
+(* whatever the caller later does to the map it passed, or another mock sharing that map does, the counts offered
+   to the partitioners are those of the SetPartitions / SetDefaultPartitions calls made on this mock *)
+Fixpoint own_ops (ops : list cfgop) : list cfgop :=
+  match ops with
+  | [] => []
+  | (CfgCallerEdits _ | CfgOtherMock _) :: r => own_ops r
+  | o :: r => o :: own_ops r
+  end.
+Theorem topic_config_snapshot ops : tc_run ops = tc_run (own_ops ops).
+Proof.
+  unfold tc_run. generalize tc_init. induction ops as [|o r IH]; intro t; [reflexivity|].
+  destruct o; cbn [own_ops fold_left tc_apply]; apply IH.
+Qed.
+
 (* ---------- sync mock ---------- *)
 Definition sync_expected (s : st) (m : msg) : sret :=
   match exps s with
